@@ -823,11 +823,48 @@ def run_v4(case):
     return None, applied
 
 
+def run_v4_pair(case):
+    """two data sets with the same applycal products (other capture block, other gains) computed in one dask graph:
+    each must come out as it does on its own"""
+    import random
+    from harness import v4synth
+    from katdal.lazy_indexer import DaskLazyIndexer
+    T, F = case['T'], case['F']
+    ds = []
+    for k in range(2):
+        rs = np.random.RandomState(case['seed'] + k)
+        rng = random.Random(case['seed'] + k)
+        ants, pols = ['m000', 'm001'], ['h', 'v']
+        g = (rs.uniform(0.5, 2, (T, 2, 2)) * np.exp(2j * np.pi * rs.uniform(0, 1, (T, 2, 2)))).astype(np.complex64)
+        bp = (rs.uniform(0.5, 2, (F, 2, 2)) * np.exp(2j * np.pi * rs.uniform(0, 1, (F, 2, 2)))).astype(np.complex64)
+        attrs = {'cal_antlist': ants, 'cal_pol_ordering': pols, 'cal_center_freq': 1284e6, 'cal_bandwidth': F * 1e6,
+                 'cal_n_chans': F}
+        sensors = {'cal_product_G': [(float(t), g[t]) for t in range(T)], 'cal_product_B': [(-0.4, bp)]}
+        same = case['same_cbid']
+        syn = v4synth.make_v4(rng, T=T, F=F, n_ants=2, extra_attrs=attrs, extra_sensors=sensors, center_freq=1284e6,
+                              bandwidth=F * 1e6, pols='hv', open_kwargs={'applycal': case['products']},
+                              cbid='1234567890' if same else f'123456789{k}', seed=5 if same else None,
+                              shuffle_bls=False, chunks={} if False else None)
+        ds.append(syn.dataset)
+    with dask.config.set(scheduler='synchronous'):
+        for what in ('vis', 'weights', 'flags'):
+            a, b = getattr(ds[0], what), getattr(ds[1], what)
+            alone = [np.asarray(a[:]), np.asarray(b[:])]
+            joint = da.compute(a.dataset, b.dataset)
+            got = DaskLazyIndexer.get([a, b], np.s_[:, :, :])
+            for k in range(2):
+                if not same_array(alone[k], np.asarray(joint[k])) or not same_array(alone[k], np.asarray(got[k])):
+                    return (f'two data sets opened with applycal={case["products"]!r} and computed in one dask graph: '
+                            f'{what} of data set {k} differs from what it is when computed on its own (the corrections '
+                            f'of the other data set were applied)'), list(ds[0].applycal_products)
+    return None, list(ds[0].applycal_products)
+
+
 def eval_v4(ctx, cases):
     bad = []
     for c in cases:
         try:
-            v, applied = run_v4(c)
+            v, applied = run_v4_pair(c) if c.get('pair') else run_v4(c)
         except Exception as e:   # noqa: BLE001
             import traceback
             ctx.advise('v4 end-to-end case could not be built: ' + traceback.format_exc()[-300:])
@@ -914,7 +951,13 @@ def m_expand_closure(case, what):
             and (what.startswith('correction at') or what.startswith('implementation raised IndexError')))
 
 
-MATCHERS = {'c13_expand_closure_shared_between_products': m_expand_closure}
+def m_corrections_name(case, what):
+    """calc_correction gave the corrections of every data set the same dask name"""
+    return bool(case.get('pair')) and 'computed in one dask graph' in what
+
+
+MATCHERS = {'c13_expand_closure_shared_between_products': m_expand_closure,
+            'c13_corrections_name_shared_between_data_sets': m_corrections_name}
 
 
 def corpus_cases():
@@ -933,6 +976,8 @@ def run(ctx):
     cases += [gen_case(ctx.rng) for _ in range(ctx.q(360, 12000))]
     cases += [gen_roundtrip(ctx.rng) for _ in range(ctx.q(16, 400))]
     cases += [gen_v4(ctx.rng, r) for r in (0.1, 0.2, 0.35)]     # two-target L2, split bandpass, late gains: always
+    cases += [dict(kind='v4', pair=True, seed=ctx.rng.randrange(2 ** 31), T=ctx.rng.randint(2, 4), F=ctx.rng.randint(2, 4),
+                   products=ctx.rng.choice(['l1.G', 'l1.B,l1.G']), same_cbid=bool(k)) for k in range(2)]
     cases += [gen_v4(ctx.rng) for _ in range(ctx.q(5, 60))]
     bad = eval_any(ctx, cases)
     if not bad and not build['build_ok']:
